@@ -1,15 +1,22 @@
 /-
-  Structural invariant of the MichaelList model and the refinement of the abstract map.
+  Structural invariant of the MichaelList model and the refinement of the abstract map: definitions and the lemmas
+  shared by the step proofs (`StepSearch.lean`, `StepCas.lean`); reachability and its consequences are in `Reach.lean`.
 
   * `Chain s.next (some 0) L` : following the pointers from cell 0 (`m_pHead`) visits exactly `L = 0 :: nodes` and then
     null.  ALL linked nodes are on `L`, marked (logically deleted) or not.
-  * `SInvL s L` : `L` is strictly sorted by key (hence duplicate-free) and consists of allocated nodes; a node an
-    inserter still owns is outside `L` and unmarked; a node that left `L` is marked; a marked node's link is
-    frozen (`frozen`: whatever a thread has read from a marked node is still there) and leads to a node that is on
-    `L` or marked (`succ`); every node a traversal holds (`prev`, `cur`, `nx`) is on `L` or marked; the key of the
-    traversal's `prev` is smaller than the key searched for.
-  * The abstract map: `Has s L k v` — some unmarked node on `L` carries `(k, v)`.
-  * Linearization points: see `lpRet` / `postRet` and `StepEff.lp`.
+  * `SInvL s L` : `L` is strictly sorted by key (`Lt`: the head cell is below every node), hence duplicate-free, and
+    consists of allocated nodes; the head cell is never marked; a node an inserter still owns (`insNode`) is outside
+    `L` and unmarked, and owned by one thread; every cell / node a traversal holds (`pcPrev`, `pcCur`, `pcNx`) is on
+    `L` or marked, so is the successor of a marked node (`succ`): a node that left `L` is marked; what a thread has
+    read from a marked node is still there (`frozen`: a marked node's link never changes); the key of the
+    traversal's `pPrev` is smaller than the key searched for (`keyPrev`), the key of an inserter's `pCur` greater
+    (`keyGt`), the key of an eraser's `pCur` equal (`keyEq`); the new node of `link_node` points to `pCur` when the
+    CAS is attempted (`icas`); no two erasers have marked the same node (`eown`).
+  * The abstract map: `Has mark key val L k v` — some unmarked node on `L` carries `(k, v)`.
+  * Linearization points: `lpRet` (current result, possibly TENTATIVE: `tent`) and `postRet` (definitive result);
+    `StepEff` states what one step does: at a linearization point the abstract map makes exactly the `Spec.map`
+    transition of the operation (`LPok`), otherwise it does not change; a tentative result is either kept, made
+    definitive, or withdrawn (only results of read-only operations are ever tentative: `tent_ro`).
 -/
 import CdsVerif.Algo.Michael.Lemmas
 namespace CdsVerif.Algo.Michael
